@@ -5,7 +5,7 @@
    ArrayMap.collect (running sum over the size-sorted collection).  The real
    layout of random declaration sets is compared with them on every run, and real
    generated programs writing one variable are executed in the ISA model. *)
-From Verif Require Import Lib.ListX Gen.Layout Gen.Layout_proofs Gen.Packet Gen.Packet_proofs.
+From Verif Require Import Lib.ListX Gen.Layout Gen.Layout_proofs Gen.Packet Gen.Packet_proofs Gen.BitField Gen.BitField_proofs.
 
 (* for ANY list of local declarations (sizes 1/2/4/8): no two locals overlap *)
 Theorem C04_locals_disjoint : forall sizes stack, Forall pow2_size sizes ->
@@ -64,3 +64,33 @@ Print Assumptions C04_scratch_below_items.
 Example C04_items_nonvacuous :
   fst (alloc_items 0 [ILocal 4; IDict 8 4; ILocal 1; IDict 5 13]) = [(-4, 4); (-16, 8); (-24, 4); (-25, 1); (-32, 5); (-48, 13)].
 Proof. reflexivity. Qed.
+
+(* ---- bit-field variables: several declared variables share one byte (fmt = (pos, bits); ebpf.py Memory._set computes
+   mask & (value << pos) | ~mask & byte on unbounded integers).  Whatever value is stored - also a negative one or one that does
+   not fit the field - every bit outside the field keeps its value, so every other variable in the byte reads what it read
+   before; the field itself reads the value modulo 2^bits; the byte stays a byte. *)
+Theorem C04_bitfield_store_bits : forall b v pos bits i, 0 <= pos -> 0 <= bits -> 0 <= i ->
+  Z.testbit (set_field b v pos bits) i = if (pos <=? i) && (i <? pos + bits) then Z.testbit v (i - pos) else Z.testbit b i.
+Proof. exact set_field_bits. Qed.
+Print Assumptions C04_bitfield_store_bits.
+
+Theorem C04_bitfield_other_unchanged : forall b v pos bits pos' bits', 0 <= pos -> 0 <= bits -> 0 <= pos' -> 0 <= bits' ->
+  pos + bits <= pos' \/ pos' + bits' <= pos ->
+  get_field (set_field b v pos bits) pos' bits' = get_field b pos' bits'.
+Proof. exact get_set_other. Qed.
+Print Assumptions C04_bitfield_other_unchanged.
+
+Theorem C04_bitfield_reads_back : forall b v pos bits, 0 <= pos -> 0 <= bits -> get_field (set_field b v pos bits) pos bits = v mod 2 ^ bits.
+Proof. exact get_set_same. Qed.
+Print Assumptions C04_bitfield_reads_back.
+
+Theorem C04_bitfield_stays_byte : forall b v pos bits, 0 <= b < 256 -> 0 <= pos -> 0 <= bits -> pos + bits <= 8 -> 0 <= set_field b v pos bits < 256.
+Proof. exact set_field_byte. Qed.
+Print Assumptions C04_bitfield_stays_byte.
+
+Theorem C04_flag_store_bits : forall b t pos i, 0 <= pos -> 0 <= i -> Z.testbit (set_flag b t pos) i = if i =? pos then t else Z.testbit b i.
+Proof. exact set_flag_bits. Qed.
+Print Assumptions C04_flag_store_bits.
+
+Example C04_bitfield_nonvacuous : set_field 0 (-1) 1 3 = 14 /\ get_field (set_field 0xff 0 1 3) 4 3 = 7 /\ set_field 0x81 13 1 3 = 0x8b.
+Proof. vm_compute. repeat split. Qed.
